@@ -29,7 +29,10 @@ Qed.
 
 Lemma xstep_inv b x : Inv b -> Inv (res_buf (xstep b x)).
 Proof.
-  intros H; destruct x as [o|k a]; cbn [xstep]; [now apply step_inv|now apply case_word_inv].
+  intros H; destruct x as [o|k a|a e tw]; cbn [xstep]; [now apply step_inv|now apply case_word_inv|].
+  unfold Model.C01_Reshape.reshape_text_w.
+  match goal with |- context [match ?m with [] => _ | _ :: _ => _ end] => destruct m end;
+    [exact H|now apply set_document_inv].
 Qed.
 
 Definition xsteps (b : buf) (ops : list xop) : buf :=
